@@ -111,7 +111,7 @@ def _apply(prod, ls, ref, log, op, t, l, ts):
         if got != expect:
             return rt.fail("C08:delivery-" + op, lambda: f"type {t}: delivered to {got}, subscribers {expect}")
         for x in log:
-            if x[1] != TYPES[t].name or x[2] != ("x", l) or (op == "fire_timed" and x[3] != ts):
+            if x[1] != TYPES[t].name or x[2] != ("x", l) or (op == "fire_timed" and x[3] is not ts):
                 return rt.fail("C08:delivery-content-" + op, lambda: f"{x} (timestamp {ts})")
     else:
         raise RuntimeError(op)
@@ -120,7 +120,7 @@ def _apply(prod, ls, ref, log, op, t, l, ts):
 
 def h_step(s0: List[int], s1: List[int], s2: List[int], t: int, l: int, ts: int) -> bool:
     """
-    pre: len(s0) <= MAXS and len(s1) <= MAXS and len(s2) <= (MAXS if NT > 2 else 0)
+    pre: len(s0) <= MAXS and len(s1) <= (MAXS if NT > 1 else 0) and len(s2) <= (MAXS if NT > 2 else 0)
     pre: all(0 <= x < NL for x in s0) and all(0 <= x < NL for x in s1) and all(0 <= x < NL for x in s2)
     pre: 0 <= t < NT and 0 <= l < NL
     pre: -2 <= ts <= 2
@@ -219,8 +219,8 @@ def h_payload(mask: int, vcode: List[int], iv: int, sv: str, check: bool) -> boo
         return rt.fail("C08:malformed-event-accepted", lambda: f"content {content!r} check={check} timed={TIMED}")
     if ev.content is not content or ev.event_type is not et:
         return rt.fail("C08:event-fields", lambda: f"{ev}")
-    if TIMED and ev.timestamp != iv:
-        return rt.fail("C08:timestamp", lambda: f"{ev.timestamp} != {iv}")
+    if TIMED and ev.timestamp is not iv:
+        return rt.fail("C08:timestamp", lambda: f"the event carries {ev.timestamp!r}, fired with {iv!r}")
     return True
 
 
@@ -257,6 +257,6 @@ def h_timestamp(tcode: int, iv: int, sv: str, check: bool, typed: bool) -> bool:
         return True
     if tcode > 1:
         return rt.fail("C08:non-numeric-timestamp-accepted", lambda: f"ts={ts!r}")
-    if ev.timestamp != ts or ev.content is not content:
-        return rt.fail("C08:timestamp", lambda: f"{ev.timestamp} != {ts}")
+    if ev.timestamp is not ts or ev.content is not content:
+        return rt.fail("C08:timestamp", lambda: f"the event carries {ev.timestamp!r}, fired with {ts!r}")
     return True
